@@ -20,7 +20,7 @@ func TestC02Provenance(t *testing.T) {
 		keys := [][][]byte{scenKeys, {[]byte("k1"), []byte("k1\x00"), []byte("k1\x00\x00")}, {[]byte(""), []byte("\x00"), []byte("k3")},
 			{collBase, collide(collBase, 1, 0x9E3779B97F4A7C15), []byte("k3")}}[c.Weighted("key-alphabet", 3, 1, 1, 1)]
 
-		propFailoverSched(c, scenOpts{keys: keys, maxKeys: 3, minGets: 2, maxGets: 6, skipRead: true, clock: 3, external: 2, prefail: true, postActions: true, faults: 2, failPct: 40, errKinds: true, restorePrep: true},
+		propFailoverSched(c, scenOpts{keys: keys, maxKeys: 3, minGets: 2, maxGets: 6, skipRead: true, clock: 3, external: 2, prefail: true, postActions: true, faults: 2, failPct: 40, errKinds: true, restorePrep: true, extCleanup: true},
 			func(w *world, sc *scenario, complete bool) {
 				w.checkProvenance()
 
